@@ -23,15 +23,15 @@ func (i ident) String() string {
 
 // reg is one accepted Add call.
 type reg struct {
-	call int // ordinal of the accepted call
-	life string
-	ctor int    // pool constructor id, -1 for an instance value
-	inst string // instance label when ctor == -1
-	form string // plain | named | group | as | as-multi | instance | multi-return | out-struct
-	outs []ident
-	deps []pool.Dep
+	call   int // ordinal of the accepted call
+	life   string
+	ctor   int    // pool constructor id, -1 for an instance value
+	inst   string // instance label when ctor == -1
+	form   string // plain | named | group | as | as-multi | instance | multi-return | out-struct
+	outs   []ident
+	deps   []pool.Dep
 	single bool // single-output constructor (several identities only through As)
-	op   *Op // the call itself (replayed into a fresh collection to adjudicate Build failures)
+	op     *Op  // the call itself (replayed into a fresh collection to adjudicate Build failures)
 }
 
 // prod is how the registration's n-th output shows up in a resolved value.
